@@ -13,6 +13,7 @@ CONSTANTS
   Depth = 24
   MaxStreak = 2
   MaxElems = 3
+  Exhaustive = FALSE
 INIT GenInit
 NEXT GenNext
 INVARIANT PrintBehaviour
